@@ -188,8 +188,8 @@ func (i UInt32) ExponentiateUInt32(other UInt32) UInt32 {
 		return 1
 	}
 	result := i
-	var j UInt32
-	for j = 2; j <= other; j++ {
+	// count down: an upward counter of the same type wraps around when `other` is the type's maximum
+	for j := other; j >= 2; j-- {
 		result *= i
 	}
 	return result
